@@ -218,9 +218,21 @@ def main(run):
     # before their Hermitisation
     names = ["nacl_prim", "triclinic", "zincblende_prim", "mono_P", "cscl", "random_p1", "wurtzite", "perovskite"]
     low_sym = ("triclinic", "mono_P", "random_p1")
-    factors = sorted({float(get_default_physical_units(c)["nac_factor"]) for c in ("vasp", "qe", "abinit", "wien2k", "siesta", "crystal", "dftbp")
-                      if get_default_physical_units(c)["nac_factor"] is not None})
-    ncases = 24 if thorough else 8
+    # every calculator's nac_factor of the unit table (the table C17.nac_consistent is proved about:
+    # each entry is e^2/(4 pi eps0) in that calculator's force-constant and length units)
+    from phonopy.interface.calculator import calculator_info
+
+    calc_factor = {}
+    for cname in sorted(list(calculator_info) + ["vasp"]):
+        try:
+            v = get_default_physical_units(cname)["nac_factor"]
+        except Exception:
+            v = None
+        if v is not None:
+            calc_factor[cname] = float(v)
+    calcs = sorted(calc_factor)
+    run.cov["nac_factor_table"] = calc_factor
+    ncases = 48 if thorough else 8
     nmax = 24 if thorough else 16
     lines, meta = [], []
     made = attempts = 0
@@ -247,7 +259,9 @@ def main(run):
         cutoff = max(rng.choice([0.5, 0.8]) * gen.min_lattice_vector(scell.cell), 0.85 * min(np.linalg.norm(prim.cell, axis=1)))
         phi = U.pair_fc(scell, cutoff)
         fc_used = phi if full else F.full_fc_to_compact_fc(prim, phi)
-        factor = rng.choice(factors)
+        calc = calcs[(made + run.seed) % len(calcs)] if made < 2 * len(calcs) else rng.choice(calcs)
+        factor = calc_factor[calc]
+        run.count("calculator unit system %s" % calc)
         born0, eps0 = U.random_born_eps(rng, npa)
         born0 = born0 - born0.mean(axis=0)  # acoustic sum rule; tensors themselves are NOT symmetric
         born_s, eps_s = symmetrize_borns_and_epsilon(born0, eps0, prim)
@@ -386,6 +400,32 @@ def main(run):
                     run.violation("DynamicalMatrixGL._dd_q0", "dd_q0-block-not-hermitian",
                                   "a 3x3 block of dd_q0 is not Hermitian (max deviation %.3g, scale %.3g)" % (herr0, float(np.abs(z0).max())), info)
                 run.count("dd_q0 block symmetry oracle", section="oracle")
+                if np.abs(z0.imag).max() > 1e-9 * max(1.0, float(np.abs(z0).max())):
+                    run.violation("DynamicalMatrixGL._dd_q0", "dd_q0-not-real", "dd_q0 has an imaginary part %.3g" % float(np.abs(z0.imag).max()), info)
+                # certificate: the list is symmetric under G -> -G (hypothesis of gl_time_reversal / dd_q0_hermitian_real)
+                key = {tuple(g): k for k, g in enumerate(np.asarray(Gl).tolist())}
+                nu = [key.get(tuple((-np.asarray(g)).tolist() if True else g), -1) for g in np.asarray(Gl)]
+                nu = [key.get(tuple((-g + 0.0).tolist()), -1) for g in np.asarray(Gl)]
+                if min(nu) < 0:
+                    run.violation("DynamicalMatrixGL._get_G_list", "g-list-not-symmetric", "G_list is not symmetric under G -> -G", info)
+                elif len(Gl) <= 400:
+                    lines.append("glistwf %d %s %s" % (len(Gl), U.flat(Gl), U.ints(nu)))
+                    meta.append(("g-list-certificate", info, lambda line: None if line == "true" else "gListWf = %s on the implementation's G_list" % line))
+                # the list itself: model _get_G_list at the implementation's index radius
+                r_impl = int(dm._get_minimum_g_rad(Gc, 100))
+                if r_impl <= 8:
+                    lines.append("glist %s %s %s %d" % (U.flat(rec), U.flat(np.array(prim.cell)), q(Fraction(float(Gc)) ** 2), r_impl))
+                    meta.append(("g-list", info, lambda line, Gl=np.array(Gl), rec=rec, r=r_impl: _cmp_glist(line, Gl, rec, r, run)))
+                # time reversal on the implementation: D(-q) = conj D(q) exactly (same list, -K for K)
+                dq = _run_dm(ph, -q_gen)
+                if "generic" in results and not U.close(dq, results["generic"].conj(), 1e-12, sc_dd):
+                    run.violation("Phonopy.run_qpoints", "time-reversal-gonze", "D(-q) differs from conj D(q) by %.3g" % U.maxdiff(dq, results["generic"].conj()), dict(info, q=q_gen.tolist()))
+                run.count("time-reversal oracle (gonze)", section="oracle")
+            if method == "wang":
+                dq = _run_dm(ph, -q_gen)
+                if "generic" in results and not U.close(dq, results["generic"].conj(), 1e-12, sc):
+                    run.violation("Phonopy.run_qpoints", "time-reversal-wang", "D(-q) differs from conj D(q) by %.3g" % U.maxdiff(dq, results["generic"].conj()), dict(info, q=q_gen.tolist()))
+                run.count("time-reversal oracle (wang)", section="oracle")
             if method == "gonze" and corr:
                 lines.append("ddq0 %d %s %s %s %s" % (npa, q(TOLSQ), U.flat(E), U.flat(Z), _g_in(Gl, np.zeros(3), E, Lam, prim.positions)))
                 meta.append(("gonze-dd_q0", info, lambda line, z=np.array(ddq0): _cmp(U.parse_complex(line, z.shape), z)))
@@ -452,7 +492,11 @@ def main(run):
                 if not U.close(z, plain[key], 1e-9 if method == "gonze" else 1e-12, sc):
                     run.violation("Phonopy.nac_params", "zero-born-%s" % method, "zero Born charges change D at %s by %.3g" % (key, U.maxdiff(z, plain[key])), info)
             run.count("limits oracle (%s)" % method, section="oracle")
+            ph.nac_params = dict({"born": born_s.copy(), "dielectric": eps_s.copy(), "factor": factor, "method": method}, **extra)
+            _batched_oracle(run, rng, ph, prim, rec, cp, q_comm if method == "wang" else q_comm_bz, q_gen, n1, plain, sc, sc_dd, method, info, thorough)
     common.switch_variant("omp")
+    _full_terms_stream(run, rng, thorough)
+    _glist_observations(run, rng, thorough)
 
     out = common.lean_run_driver("C08", lines)
     if len(out) != len(lines):
@@ -467,6 +511,216 @@ def main(run):
             if kind in ("group-certificate", "lattice-certificate"):
                 run.violation("Symmetry.symmetry_operations", "tables-not-wellformed", err, info)
     run.cov["correspondence"]["compared"] = ncmp
+
+
+def _batched_oracle(run, rng, ph, prim, rec, cp, q_c, q_gen, n1, plain, sc, sc_dd, method, info, thorough):
+    """Many q-points through ONE run_dynamical_matrix_solver_c call (the Mesh / QpointsPhonon batch path, OpenMP over
+    q-points) must equal the one-q-at-a-time results entry-wise, the closed form at the zone centre and the uncorrected
+    matrix at commensurate points."""
+    import os
+
+    from phonopy.harmonic.dynamical_matrix import run_dynamical_matrix_solver_c
+
+    dm = ph.dynamical_matrix
+    if not _margin_ok(rec, np.zeros(3), n1):
+        return
+    distinct = [np.zeros(3), np.array(q_c, dtype=float), np.array(q_gen, dtype=float), -np.array(q_gen, dtype=float)]
+    distinct += [np.array(c, dtype=float) for c in cp[1:4]]
+    distinct += [np.array([rng.randint(-16, 16) / 16.0 + 0.0137 * (k + 1) for _ in range(3)]) for k in range(5)]
+    distinct = [d for d in distinct if _margin_ok(rec, d, None)]
+    single = [np.array(run_dynamical_matrix_solver_c(dm, np.array([d]), n1)[0]) for d in distinct]
+    nrep = rng.randint(50, 700) if not thorough else rng.randint(300, 1500)
+    order = [rng.randrange(len(distinct)) for _ in range(nrep)]
+    qs = np.array([distinct[k] for k in order], dtype="double", order="C")
+    batch = np.array(run_dynamical_matrix_solver_c(dm, qs, n1))
+    ref = np.array([single[k] for k in order])
+    tol_sc = max(sc, sc_dd)
+    run.count("batched solver oracle (%s): %d q-points in one call, OMP_NUM_THREADS=%s" % (method, 100 * (nrep // 100), os.environ.get("OMP_NUM_THREADS", "?")), section="oracle")
+    case = dict(info, n_qpoints=nrep, distinct_qpoints=[d.tolist() for d in distinct], direction=n1.tolist(), order_head=order[:20])
+    if not U.close(batch, ref, 1e-12, tol_sc):
+        bad = int(np.argmax(np.abs(batch - ref).reshape(nrep, -1).max(axis=1)))
+        run.violation("run_dynamical_matrix_solver_c", "batched-ne-single-%s" % method,
+                      "one call with %d q-points differs from the one-q-at-a-time result by %.3g (entry %d, q=%s)" % (nrep, U.maxdiff(batch, ref), bad, qs[bad].tolist()), case)
+    # closed form at the zone-centre entries, no-op at the commensurate entries
+    pred = None
+    for k, pos in enumerate(order):
+        if pos == 0:
+            if pred is None:
+                pred = _closed_form(prim, np.array(dm.born), np.array(dm.dielectric_constant), float(dm.nac_factor), n1)
+            if not U.close(batch[k] - plain["gamma"], pred, TOL, tol_sc):
+                run.violation("run_dynamical_matrix_solver_c", "batched-gamma-limit-%s" % method,
+                              "batched zone-centre matrix differs from the closed form by %.3g" % U.maxdiff(batch[k] - plain["gamma"], pred), case)
+                break
+        elif pos == 1:
+            pl = plain["comm"] if method == "wang" else plain["comm_bz"]
+            if not U.close(batch[k], pl, TOL if method == "wang" else 1e-3, tol_sc):
+                run.violation("run_dynamical_matrix_solver_c", "batched-commensurate-noop-%s" % method,
+                              "batched matrix at a commensurate q differs from the uncorrected one by %.3g" % U.maxdiff(batch[k], pl), case)
+                break
+    # the public batch path: Phonopy.run_qpoints with all points at once
+    ph.run_qpoints(qs, nac_q_direction=n1, with_dynamical_matrices=True)
+    api = np.array(ph.get_qpoints_dict()["dynamical_matrices"])
+    if not U.close(api, ref, 1e-12, tol_sc):
+        run.violation("Phonopy.run_qpoints", "batched-ne-single-%s" % method,
+                      "run_qpoints with %d q-points differs from the one-q-at-a-time result by %.3g" % (nrep, U.maxdiff(api, ref)), case)
+
+
+def _cmp_glist(line, Gl, rec, r_impl, run):
+    """model answer `minGRad safeGRad len n...` vs the implementation's G_list at its own index radius"""
+    if line == "bad-op":
+        return "model rejected the input"
+    t = line.split()
+    r_old, r_safe, ln = int(t[0]), int(t[1]), int(t[2])
+    n = np.array(list(map(int, t[3:])), dtype=float).reshape(-1, 3)
+    # the routine now in /repo (fix ce56bcc) is the model `safeGRad`; `minGRad` models the routine as found
+    if r_impl != r_safe:
+        return "index radius %d of the implementation is not floor(G_cutoff max|a_i|)+1 = %d (model safeGRad; as-found routine: %d)" % (r_impl, r_safe, r_old)
+    run.count("index radius = safeGRad" + (" (as-found routine gives the same)" if r_old == r_safe else " (as-found routine would give %d)" % r_old), section="correspondence")
+    if ln != len(Gl) or len(n) != len(Gl):
+        return "model list has %d vectors, implementation %d" % (ln, len(Gl))
+    Gm = n @ np.asarray(rec).T
+    if np.abs(Gm - Gl).max() > 1e-12 * max(1.0, float(np.abs(Gl).max())):
+        return "G vectors differ (order or values) by %.3g" % float(np.abs(Gm - Gl).max())
+    return None
+
+
+def _exact_glist_count(prim_cell, rec, Gc):
+    import itertools
+
+    R = [int(np.floor(Gc * np.linalg.norm(prim_cell[i]))) + 1 for i in range(3)]
+    grid = np.array(list(itertools.product(*[range(-r, r + 1) for r in R])))
+    G = grid @ rec.T
+    n2 = np.sum(G ** 2, axis=1)
+    return G[n2 < Gc ** 2], np.sqrt(n2[n2 < Gc ** 2])
+
+
+def _glist_observations(run, rng, thorough):
+    """Observation outside the property (not an alarm): for skewed / non-reduced primitive bases
+    `_get_minimum_g_rad` underestimates the index radius and the default G list misses vectors inside
+    G_cutoff. The three limits of C08 are not affected (the same list is subtracted and added); recorded:
+    how many vectors are missing, the largest omitted weight, and the first-zone commensurate no-op."""
+    from phonopy import Phonopy
+    from phonopy.harmonic.dynamical_matrix import DynamicalMatrix, DynamicalMatrixGL
+    from phonopy.harmonic.dynmat_to_fc import get_commensurate_points
+    from phonopy.structure.atoms import PhonopyAtoms
+    from phonopy.structure.brillouin_zone import BrillouinZone
+
+    obs = []
+    cells = [("cubic a1=a+2b", np.array([[1, 2, 0], [0, 1, 0], [0, 0, 1]]) @ (np.eye(3) * 5.5), np.diag([1, 2, 1])),
+             ("monoclinic beta=140", gen._c(6.0, 4.0, 9.0, 90, 140, 90), np.diag([2, 1, 1]))]
+    for t in range(20 if thorough else 2):
+        sh = np.array([[1, rng.randint(-3, 3), rng.randint(-3, 3)], [0, 1, rng.randint(-3, 3)], [0, 0, 1]])
+        S = [np.diag([2, 1, 1]), np.diag([1, 2, 1]), np.diag([1, 1, 2])][rng.randrange(3)]
+        cells.append(("cubic sheared by %s" % sh[np.triu_indices(3, 1)].tolist(), sh @ (np.eye(3) * rng.choice([3.5, 4.0, 5.5])), S))
+    for tag, lat, S in cells:
+        cell = PhonopyAtoms(cell=lat, symbols=["Na", "Cl"], scaled_positions=[[0, 0, 0], [0.5, 0.5, 0.5]])
+        ph = Phonopy(cell, supercell_matrix=S, primitive_matrix="P", log_level=0)
+        prim, sc = ph.primitive, ph.supercell
+        phi = U.pair_fc(sc, 0.9 * gen.min_lattice_vector(sc.cell))
+        Z = np.array([np.eye(3) * 1.1, -np.eye(3) * 1.1])
+        E = np.eye(3) * 2.5
+        ph.force_constants = phi
+        rec = np.linalg.inv(prim.cell)
+        cp = get_commensurate_points(np.rint(np.linalg.inv(prim.primitive_matrix)).astype(int))
+        bz = BrillouinZone(rec)
+        bz.run(cp)
+        qs = np.array([bz.shortest_qpoints[i][0] for i in range(1, len(cp))])
+        ph.run_qpoints(qs, with_dynamical_matrices=True)
+        d0 = np.array(ph.get_qpoints_dict()["dynamical_matrices"])
+        ph.nac_params = {"born": Z, "dielectric": E, "factor": 14.4, "method": "gonze"}
+        ph.run_qpoints(qs, with_dynamical_matrices=True)
+        d1 = np.array(ph.get_qpoints_dict()["dynamical_matrices"])
+        dm = ph.dynamical_matrix
+        Gtrue, norms = _exact_glist_count(prim.cell, rec, dm._G_cutoff)
+        have = {tuple(np.round(g, 9)) for g in dm._G_list}
+        miss = [nm for g, nm in zip(Gtrue, norms) if tuple(np.round(g, 9)) not in have]
+        L2 = 4 * dm._Lambda ** 2
+        wmax = max([math.exp(-m * m * 2.5 / L2) for m in miss], default=0.0)
+        dev = U.maxdiff(d1, d0)
+        scale = max(float(np.abs(d0).max()), 1e-300)
+        obs.append(dict(cell=tag, lattice=np.round(lat, 6).tolist(), supercell_matrix=S.tolist(), G_cutoff=float(dm._G_cutoff),
+                        index_radius=int(dm._get_minimum_g_rad(dm._G_cutoff, 100)),
+                        listed=int(len(dm._G_list)), inside_cutoff=int(len(Gtrue)), missing=len(miss),
+                        smallest_missing_over_cutoff=(float(min(miss) / dm._G_cutoff) if miss else None), largest_omitted_weight=wmax,
+                        first_zone_commensurate_noop_deviation=dev, relative=dev / scale, q=qs.tolist()))
+        run.case(("skewed", np.round(lat, 6).tolist(), S.tolist()), nontrivial=bool(miss))
+        run.count("skewed-basis stream: default G list %s" % ("complete" if not miss else "incomplete"))
+        run.count("skewed-basis commensurate no-op oracle", section="oracle")
+        if dev > 1e-6 * scale:
+            run.violation("Phonopy.run_qpoints", "commensurate-noop-gonze-skewed-basis",
+                          "Gonze-Lee correction changes D at a first-zone commensurate q by %.3g (relative %.2g; default G list has %d of the %d vectors inside G_cutoff)"
+                          % (dev, dev / scale, len(dm._G_list), len(Gtrue)),
+                          dict(lattice=np.round(lat, 6).tolist(), symbols=["Na", "Cl"], scaled_positions=[[0, 0, 0], [0.5, 0.5, 0.5]], supercell_matrix=S.tolist(),
+                               born=Z.tolist(), dielectric=E.tolist(), factor=14.4, method="gonze", q=qs.tolist(), fc="pair potential, cutoff 0.9*min lattice vector"))
+    run.cov["observations"] = {
+        "what": "DynamicalMatrixGL._get_minimum_g_rad underestimates the index radius for skewed/non-reduced primitive bases: the default "
+                "G list misses vectors inside G_cutoff; on the zone boundary the truncated sum is then far from G-periodic and the commensurate "
+                "no-op fails beyond the stated precision (Lean: minGRad_insufficient, g_list_complete; proposed_fixes/c08-glist-index-radius.*)",
+        "cases": obs,
+    }
+
+
+def _full_terms_stream(run, rng, thorough):
+    """with_full_terms=True (real-space part with erfc; only reachable by constructing DynamicalMatrixGL directly):
+    the three limits on the implementation."""
+    from phonopy.harmonic.dynamical_matrix import DynamicalMatrix, DynamicalMatrixGL
+    from phonopy.harmonic.dynmat_to_fc import get_commensurate_points
+    from phonopy.structure.brillouin_zone import BrillouinZone
+    from phonopy.structure.symmetry import symmetrize_borns_and_epsilon
+
+    names = ["nacl_prim", "triclinic", "wurtzite", "zincblende_prim", "mono_P", "cscl"]
+    for c in range(12 if thorough else 2):
+        name = names[(c + run.seed) % len(names)]
+        cell, cen = _cell(name)
+        S = np.diag([2, 1, 1]) if len(cell) > 2 else np.diag([2, 2, 1])
+        ph = gen.make_phonopy(cell, S, pmat="P")
+        prim, sc = ph.primitive, ph.supercell
+        phi = U.pair_fc(sc, 0.8 * gen.min_lattice_vector(sc.cell))
+        born0, eps0 = U.random_born_eps(rng, len(prim))
+        born0 = born0 - born0.mean(axis=0)
+        Z, E = symmetrize_borns_and_epsilon(born0, eps0, prim)
+        factor = 14.4
+        info = dict(cell=name, smat=S.tolist(), born=Z.tolist(), dielectric=E.tolist(), factor=factor, with_full_terms=True)
+        run.case(("full-terms", name, Z.tobytes(), E.tobytes()), nontrivial=True)
+        run.count("with_full_terms=True cases")
+        plain = DynamicalMatrix(sc, prim, phi.copy())
+        dm = DynamicalMatrixGL(sc, prim, phi.copy(), nac_params={"born": Z, "dielectric": E, "factor": factor}, with_full_terms=True)
+        f = float(dm.nac_factor)
+        n = np.array([rng.randint(-8, 8) / 4.0 + 0.1 for _ in range(3)])
+        plain.run(np.zeros(3))
+        d0 = np.array(plain.dynamical_matrix)
+        dm.run(np.zeros(3), q_direction=n)
+        dg = np.array(dm.dynamical_matrix)
+        pred = _closed_form(prim, Z, E, f, n)
+        scd = max(1.0, float(np.abs(d0).max()), float(np.abs(pred).max()))
+        problems = []
+        if not U.close(dg - d0, pred, 1e-6, scd):
+            problems.append("Gamma limit off by %.3g" % U.maxdiff(dg - d0, pred))
+        if np.abs(dg - dg.conj().T).max() > 1e-9 * scd:
+            problems.append("not Hermitian (%.3g)" % float(np.abs(dg - dg.conj().T).max()))
+        cp = get_commensurate_points(np.rint(np.linalg.inv(prim.primitive_matrix)).astype(int))
+        bz = BrillouinZone(np.linalg.inv(prim.cell))
+        bz.run(cp)
+        dev = 0.0
+        for i in range(1, len(cp)):
+            qb = np.array(bz.shortest_qpoints[i][0])
+            dm.run(qb)
+            plain.run(qb)
+            dev = max(dev, U.maxdiff(dm.dynamical_matrix, plain.dynamical_matrix))
+        if dev > 1e-6 * scd:
+            problems.append("commensurate no-op off by %.3g" % dev)
+        dmz = DynamicalMatrixGL(sc, prim, phi.copy(), nac_params={"born": np.zeros_like(Z), "dielectric": E, "factor": factor}, with_full_terms=True)
+        qg = np.array([0.1, 0.2, 0.3])
+        dmz.run(qg)
+        plain.run(qg)
+        zdev = U.maxdiff(dmz.dynamical_matrix, plain.dynamical_matrix)
+        if zdev > 1e-9 * scd:
+            problems.append("zero Born charges change D by %.3g" % zdev)
+        run.count("with_full_terms limits oracle", section="oracle")
+        if problems:
+            run.violation("DynamicalMatrixGL(with_full_terms=True)", "full-terms-limits", "; ".join(problems), dict(info, direction=n.tolist(), q_zero_born=qg.tolist()))
+        else:
+            run.count("with_full_terms=True: all three limits hold")
 
 
 def _cmp(model, impl):
